@@ -152,6 +152,8 @@ pub enum EvKind {
         us: Option<u64>, via: String, budget: bool },
     Ret { who: Who, k: u32, res: Res, polls: u32 },
     Cancelled { who: Who, k: u32, polls: u32 },
+    /// the library call of a send-family operation was made (its future exists; nothing polled yet)
+    Created { who: Who, k: u32, op: OpTag, a: u32, mid: Option<u64> },
     /// synchronous handle-table operation (single event): result strong/weak/none after the op
     Handle { who: Who, k: u32, op: HKind, h: u32, to: Option<u32>, a: Option<u32>, ok: bool, strong: bool, moved: bool },
     StartEnter { a: u32 },
@@ -248,11 +250,15 @@ pub struct World {
     pub log: Vec<Ev>,
     pub seq: u64,
     pub t0: tokio::time::Instant,
-    pub slots: BTreeMap<u32, (Handle, u32)>,
+    /// handle table: a slot's handle *value* is shared by every operation performed through that slot
+    /// (a caller keeps using its handle; per-handle state such as caches is therefore exercised)
+    pub slots: BTreeMap<u32, (std::sync::Arc<Handle>, u32)>,
     pub flags: BTreeMap<u32, bool>,
     pub flag_waiters: BTreeMap<u32, Vec<Waker>>,
     pub nonce: u64,
     pub cur_op: Option<(Who, u32)>,
+    /// value of the process-wide dead-letter counter at this run's first snapshot (the log holds deltas)
+    pub dl_base: Option<u64>,
     pub raw_ids: BTreeMap<u64, u32>,
     pub erase: Option<u64>,
     pub probes: Probes,
@@ -280,6 +286,7 @@ pub fn install(erase: Option<u64>, nonce_seed: u64) {
             raw_ids: BTreeMap::new(),
             erase,
             probes: Probes::default(),
+            dl_base: None,
             max_log: 12000,
             overflow: false,
             closing: false,
